@@ -50,6 +50,29 @@ Proof.
 Qed.
 
 
+(* CH A: the 16-bit address printed in octal reads back through get_uint16(base=8): finite sweep *)
+Definition oct_ok (v : Z) : bool :=
+  let w := print_base 8 v in
+  negb (is_nil w) && forallb safe w
+  && match as_uint max16 (mkTok tIDENT w false None) 8 with Ok v' => v' =? v | _ => false end.
+
+Lemma oct_ok_all : forallb oct_ok (zrange 65536 0) = true.
+Proof. vm_compute. reflexivity. Qed.
+
+Theorem octal_facts v : 0 <= v <= 65535 ->
+  print_base 8 v <> [] /\ forallb safe (print_base 8 v) = true /\
+  as_uint max16 (mkTok tIDENT (print_base 8 v) false None) 8 = Ok v.
+Proof.
+  intros Hv. pose proof oct_ok_all as G. rewrite forallb_forall in G. specialize (G v).
+  assert (Hin : In v (zrange 65536 0)).
+  { apply zrange_in. assert (E : Z.of_nat 65536 = 65536) by (vm_compute; reflexivity). rewrite E. lia. }
+  specialize (G Hin). unfold oct_ok in G. cbv zeta in G.
+  apply andb_true_iff in G as [G G3]. apply andb_true_iff in G as [G1 G2].
+  split; [intros E; rewrite E in G1; discriminate|]. split; [exact G2|].
+  destruct (as_uint max16 (mkTok tIDENT (print_base 8 v) false None) 8) as [v'| |]; try discriminate.
+  apply Z.eqb_eq in G3. subst. reflexivity.
+Qed.
+
 (* dns.rdatatype.to_text / from_text: the KType instance *)
 Theorem rdtype_facts v : 0 <= v < 65536 ->
   exists n, rdtype_to_text v = Ok n /\ n <> [] /\ forallb safe n = true /\ rdtype_from_text n = Ok v.
